@@ -104,7 +104,8 @@ def gen_real_graph(rnd, extreme=True, inexpressible=None):
     elif inexpressible == 'se2_offset':
         if dim3:
             return gen_real_graph(rnd, extreme, inexpressible)
-        off = rnd.choice([PoseSE2([0.5, 0.0], 0.0), PoseSE2([0.0, 0.0], 0.3), PoseSE2([1.0, -2.0], -1.2), PoseSE2([0.0, 1e-12], 0.0)])
+        off = rnd.choice([PoseSE2([0.5, 0.0], 0.0), PoseSE2([0.0, 0.0], 0.3), PoseSE2([1.0, -2.0], -1.2), PoseSE2([0.0, 1e-12], 0.0),
+                          PoseSE2([3e-13, -4e-13], 0.0), PoseSE2([0.0, 0.0], 1e-15), PoseSE2([5e-324, 0.0], 0.0), PoseSE2([0.0, -1e-300], 0.0)])      # (any non-zero offset, however tiny)
         edges.append(EdgeLandmark([poses[0].id, lms[0].id], rnd_info(2, rnd, False), rnd_pose('R2', rnd, False), off, offset_id=0))
     g = Graph(edges, verts)
     g._g2o_params = params
